@@ -83,6 +83,10 @@ class LoopContext:
     continue_jumps: List[int] = field(default_factory=list)
     label: Optional[str] = None
     is_loop: bool = True  # False for switch statements (break only, no continue)
+    # Operands the construct keeps on the stack while its body runs
+    # (for-in/for-of iterator, switch discriminant)
+    operands: int = 0
+    try_depth: int = 0  # len(try_stack) when the construct was entered
 
 
 @dataclass
@@ -90,6 +94,9 @@ class TryContext:
     """Context for try-finally blocks (for break/continue/return)."""
 
     finalizer: Any = None  # The finally block AST node
+    loop_depth: int = 0  # len(loop_stack) when the try statement was entered
+    # True while the region being compiled is protected by a handler of this statement
+    handler_active: bool = True
 
 
 class Compiler:
@@ -113,6 +120,7 @@ class Compiler:
             {}
         )  # bytecode_pos -> (line, column)
         self._current_loc: Optional[Tuple[int, int]] = None  # Current source location
+        self._pending_label: Optional[str] = None  # label of the loop about to be compiled
 
     def compile(self, node: Program) -> CompiledFunction:
         """Compile a program to bytecode."""
@@ -204,12 +212,48 @@ class Compiler:
         self.bytecode[pos + 1] = target & 0xFF  # Low byte
         self.bytecode[pos + 2] = (target >> 8) & 0xFF  # High byte
 
-    def _emit_pending_finally_blocks(self) -> None:
-        """Emit all pending finally blocks (for break/continue/return)."""
-        # Emit finally blocks in reverse order (innermost first)
-        for try_ctx in reversed(self.try_stack):
-            if try_ctx.finalizer:
-                self._compile_statement(try_ctx.finalizer)
+    def _new_loop_context(self, operands: int = 0) -> LoopContext:
+        """Create the context of a loop, taking the label of an enclosing labeled statement."""
+        label = self._pending_label
+        self._pending_label = None
+        return LoopContext(
+            label=label, operands=operands, try_depth=len(self.try_stack)
+        )
+
+    def _emit_exit_cleanup(self, target_index: int, pop_operands: bool = True) -> None:
+        """Emit what leaving the constructs nested inside loop_stack[target_index] requires.
+
+        Walks loop/switch contexts and try contexts from the innermost outwards, up to
+        (not including) the target: pops iterators and discriminants, removes active
+        handlers and inlines the finally blocks that lie between the statement and its
+        target. target_index -1 means the whole function (return).
+        """
+        saved_loop_stack = self.loop_stack
+        saved_try_stack = self.try_stack
+        li = len(saved_loop_stack) - 1
+        ti = len(saved_try_stack) - 1
+        try:
+            while True:
+                if ti >= 0 and saved_try_stack[ti].loop_depth > max(li, target_index):
+                    try_ctx = saved_try_stack[ti]
+                    if try_ctx.handler_active:
+                        self._emit(OpCode.TRY_END)
+                    if try_ctx.finalizer:
+                        # The finally block runs in the context that encloses its try statement
+                        self.try_stack = saved_try_stack[:ti]
+                        self.loop_stack = saved_loop_stack[: try_ctx.loop_depth]
+                        self._compile_statement(try_ctx.finalizer)
+                    ti -= 1
+                elif li > target_index:
+                    if pop_operands:
+                        for _ in range(saved_loop_stack[li].operands):
+                            self._emit(OpCode.POP)
+                    li -= 1
+                else:
+                    break
+        finally:
+            self.loop_stack = saved_loop_stack
+            self.try_stack = saved_try_stack
 
     def _add_constant(self, value: Any) -> int:
         """Add a constant and return its index."""
@@ -455,7 +499,7 @@ class Compiler:
                 self._patch_jump(jump_false)
 
         elif isinstance(node, WhileStatement):
-            loop_ctx = LoopContext()
+            loop_ctx = self._new_loop_context()
             self.loop_stack.append(loop_ctx)
 
             loop_start = len(self.bytecode)
@@ -478,7 +522,7 @@ class Compiler:
             self.loop_stack.pop()
 
         elif isinstance(node, DoWhileStatement):
-            loop_ctx = LoopContext()
+            loop_ctx = self._new_loop_context()
             self.loop_stack.append(loop_ctx)
 
             loop_start = len(self.bytecode)
@@ -499,7 +543,7 @@ class Compiler:
             self.loop_stack.pop()
 
         elif isinstance(node, ForStatement):
-            loop_ctx = LoopContext()
+            loop_ctx = self._new_loop_context()
             self.loop_stack.append(loop_ctx)
 
             # Init
@@ -541,7 +585,7 @@ class Compiler:
             self.loop_stack.pop()
 
         elif isinstance(node, ForInStatement):
-            loop_ctx = LoopContext()
+            loop_ctx = self._new_loop_context(operands=1)
             self.loop_stack.append(loop_ctx)
 
             # Compile object expression
@@ -599,18 +643,19 @@ class Compiler:
 
             self._emit(OpCode.JUMP, loop_start)
             self._patch_jump(jump_done)
-            self._emit(OpCode.POP)  # Pop iterator
-
-            # Patch break and continue jumps
+            # A break leaves through the same exit as a finished iteration: the iterator is popped
             for pos in loop_ctx.break_jumps:
                 self._patch_jump(pos)
+            self._emit(OpCode.POP)  # Pop iterator
+
+            # Patch continue jumps
             for pos in loop_ctx.continue_jumps:
                 self._patch_jump(pos, loop_start)
 
             self.loop_stack.pop()
 
         elif isinstance(node, ForOfStatement):
-            loop_ctx = LoopContext()
+            loop_ctx = self._new_loop_context(operands=1)
             self.loop_stack.append(loop_ctx)
 
             # Compile iterable expression
@@ -651,11 +696,12 @@ class Compiler:
 
             self._emit(OpCode.JUMP, loop_start)
             self._patch_jump(jump_done)
-            self._emit(OpCode.POP)  # Pop iterator
-
-            # Patch break and continue jumps
+            # A break leaves through the same exit as a finished iteration: the iterator is popped
             for pos in loop_ctx.break_jumps:
                 self._patch_jump(pos)
+            self._emit(OpCode.POP)  # Pop iterator
+
+            # Patch continue jumps
             for pos in loop_ctx.continue_jumps:
                 self._patch_jump(pos, loop_start)
 
@@ -688,8 +734,8 @@ class Compiler:
                 else:
                     raise SyntaxError("'break' outside of loop")
 
-            # Emit pending finally blocks before the break
-            self._emit_pending_finally_blocks()
+            # Leave everything nested inside the target: operands, handlers, finally blocks
+            self._emit_exit_cleanup(self.loop_stack.index(ctx))
 
             pos = self._emit_jump(OpCode.JUMP)
             ctx.break_jumps.append(pos)
@@ -712,20 +758,21 @@ class Compiler:
             if ctx is None:
                 raise SyntaxError(f"label '{target_label}' not found")
 
-            # Emit pending finally blocks before the continue
-            self._emit_pending_finally_blocks()
+            # Leave everything nested inside the target: operands, handlers, finally blocks
+            self._emit_exit_cleanup(self.loop_stack.index(ctx))
 
             pos = self._emit_jump(OpCode.JUMP)
             ctx.continue_jumps.append(pos)
 
         elif isinstance(node, ReturnStatement):
-            # Emit pending finally blocks before the return
-            self._emit_pending_finally_blocks()
-
+            # The return value is computed first, then enclosing finally blocks run.
+            # Operands of enclosing constructs are discarded by the VM on return.
             if node.argument:
                 self._compile_expression(node.argument)
+                self._emit_exit_cleanup(-1, pop_operands=False)
                 self._emit(OpCode.RETURN)
             else:
+                self._emit_exit_cleanup(-1, pop_operands=False)
                 self._emit(OpCode.RETURN_UNDEFINED)
 
         elif isinstance(node, ThrowStatement):
@@ -734,10 +781,12 @@ class Compiler:
             self._emit(OpCode.THROW)
 
         elif isinstance(node, TryStatement):
-            # Push TryContext if there's a finally block so break/continue/return
-            # can inline the finally code
-            if node.finalizer:
-                self.try_stack.append(TryContext(finalizer=node.finalizer))
+            # The context lets break/continue/return remove the handler and inline
+            # the finally block on their way out
+            try_ctx = TryContext(
+                finalizer=node.finalizer, loop_depth=len(self.loop_stack)
+            )
+            self.try_stack.append(try_ctx)
 
             # Try block
             try_start = self._emit_jump(OpCode.TRY_START)
@@ -748,7 +797,7 @@ class Compiler:
             # Jump past exception handler to normal finally
             jump_to_finally = self._emit_jump(OpCode.JUMP)
 
-            # Exception handler
+            # Exception handler (the VM has already removed the handler)
             self._patch_jump(try_start)
             if node.handler:
                 # Has catch block
@@ -759,17 +808,28 @@ class Compiler:
                 slot = self._get_local(name)
                 self._emit(OpCode.STORE_LOCAL, slot)
                 self._emit(OpCode.POP)
-                self._compile_statement(node.handler.body)
+                if node.finalizer:
+                    # Protect the catch clause so that finally also runs when it throws
+                    catch_guard = self._emit_jump(OpCode.TRY_START)
+                    self._compile_statement(node.handler.body)
+                    self._emit(OpCode.TRY_END)
+                    jump_after_catch = self._emit_jump(OpCode.JUMP)
+                    self._patch_jump(catch_guard)
+                    self.try_stack.pop()
+                    self._compile_statement(node.finalizer)
+                    self._emit(OpCode.THROW)  # Rethrow the exception
+                    self._patch_jump(jump_after_catch)
+                else:
+                    self.try_stack.pop()
+                    self._compile_statement(node.handler.body)
                 # Fall through to finally
-            elif node.finalizer:
+            else:
                 # No catch, only finally - exception is on stack
                 # Run finally then rethrow
-                self._compile_statement(node.finalizer)
-                self._emit(OpCode.THROW)  # Rethrow the exception
-
-            # Pop TryContext before compiling normal finally
-            if node.finalizer:
                 self.try_stack.pop()
+                if node.finalizer:
+                    self._compile_statement(node.finalizer)
+                self._emit(OpCode.THROW)  # Rethrow the exception
 
             # Normal finally block (after try completes normally or after catch)
             self._patch_jump(jump_to_finally)
@@ -798,7 +858,10 @@ class Compiler:
 
             # Case bodies
             case_positions = []
-            loop_ctx = LoopContext(is_loop=False)  # For break statements only
+            # For break statements only; the discriminant stays on the stack meanwhile
+            loop_ctx = LoopContext(
+                is_loop=False, operands=1, try_depth=len(self.try_stack)
+            )
             self.loop_stack.append(loop_ctx)
 
             for i, case in enumerate(node.cases):
@@ -807,6 +870,9 @@ class Compiler:
                     self._compile_statement(stmt)
 
             self._patch_jump(jump_end)
+            # A break leaves through the same exit: the discriminant is popped
+            for pos in loop_ctx.break_jumps:
+                self._patch_jump(pos)
             self._emit(OpCode.POP)  # Pop discriminant
 
             # Patch jumps to case bodies
@@ -815,10 +881,6 @@ class Compiler:
             if default_jump:
                 pos, idx = default_jump
                 self._patch_jump(pos, case_positions[idx])
-
-            # Patch break jumps
-            for pos in loop_ctx.break_jumps:
-                self._patch_jump(pos)
 
             self.loop_stack.pop()
 
@@ -850,10 +912,27 @@ class Compiler:
                 self._emit(OpCode.STORE_NAME, idx)
             self._emit(OpCode.POP)
 
+        elif isinstance(node, LabeledStatement) and isinstance(
+            node.body,
+            (
+                WhileStatement,
+                DoWhileStatement,
+                ForStatement,
+                ForInStatement,
+                ForOfStatement,
+            ),
+        ):
+            # A labeled loop: the loop's own context carries the label, so that
+            # `continue label` reaches its continue target and `break label` its exit
+            self._pending_label = node.label.name
+            self._compile_statement(node.body)
+
         elif isinstance(node, LabeledStatement):
             # Create a loop context for the label
             # is_loop=False so unlabeled break/continue skip this context
-            loop_ctx = LoopContext(label=node.label.name, is_loop=False)
+            loop_ctx = LoopContext(
+                label=node.label.name, is_loop=False, try_depth=len(self.try_stack)
+            )
             self.loop_stack.append(loop_ctx)
 
             # Compile the labeled body
@@ -989,6 +1068,7 @@ class Compiler:
         old_constants = self.constants
         old_locals = self.locals
         old_loop_stack = self.loop_stack
+        old_try_stack = self.try_stack
         old_in_function = self._in_function
         old_free_vars = self._free_vars
         old_cell_vars = self._cell_vars
@@ -1002,6 +1082,7 @@ class Compiler:
         self.constants = []
         self.locals = [p.name for p in node.params] + ["arguments"]
         self.loop_stack = []
+        self.try_stack = []
         self._in_function = True
 
         # Collect all var declarations to know the full locals set
@@ -1048,6 +1129,7 @@ class Compiler:
         self.constants = old_constants
         self.locals = old_locals
         self.loop_stack = old_loop_stack
+        self.try_stack = old_try_stack
         self._in_function = old_in_function
         self._free_vars = old_free_vars
         self._cell_vars = old_cell_vars
@@ -1074,6 +1156,7 @@ class Compiler:
         old_constants = self.constants
         old_locals = self.locals
         old_loop_stack = self.loop_stack
+        old_try_stack = self.try_stack
         old_in_function = self._in_function
         old_free_vars = self._free_vars
         old_cell_vars = self._cell_vars
@@ -1094,6 +1177,7 @@ class Compiler:
             self.locals.append(name)
 
         self.loop_stack = []
+        self.try_stack = []
         self._in_function = True
 
         # Collect all var declarations to know the full locals set
@@ -1146,6 +1230,7 @@ class Compiler:
         self.constants = old_constants
         self.locals = old_locals
         self.loop_stack = old_loop_stack
+        self.try_stack = old_try_stack
         self._in_function = old_in_function
         self._free_vars = old_free_vars
         self._cell_vars = old_cell_vars
